@@ -36,9 +36,9 @@ var pureFuncs = map[string]any{
 	"unicode/utf8.FullRuneInString": utf8.FullRuneInString, "unicode/utf8.RuneStart": utf8.RuneStart,
 	"strconv.Quote": strconv.Quote, "strconv.IsPrint": strconv.IsPrint, "strconv.IsGraphic": strconv.IsGraphic, "strconv.CanBackquote": strconv.CanBackquote,
 	"strconv.QuoteToGraphic": strconv.QuoteToGraphic, "strconv.QuoteRuneToGraphic": strconv.QuoteRuneToGraphic,
-	"strings.IndexAny": strings.IndexAny, "strings.ToValidUTF8": strings.ToValidUTF8, 
+	"strings.IndexAny": strings.IndexAny, "strings.ToValidUTF8": strings.ToValidUTF8,
 	"unicode.IsPunct": unicode.IsPunct, "unicode.IsSymbol": unicode.IsSymbol, "unicode.IsMark": unicode.IsMark, "unicode.IsNumber": unicode.IsNumber,
-	"fmt.Sprint": fmt.Sprint,
+	"fmt.Sprint":         fmt.Sprint,
 	"path/filepath.Base": filepath.Base, "path/filepath.Dir": filepath.Dir, "path/filepath.Ext": filepath.Ext, "path/filepath.Clean": filepath.Clean, "path/filepath.ToSlash": filepath.ToSlash,
 	"path.Base": path.Base, "path.Dir": path.Dir, "path.Ext": path.Ext, "path.Clean": path.Clean,
 }
